@@ -368,7 +368,14 @@ def gen_stream(rng, tree):
     if kind == 4:
         n = rng.pick([MAX_FRAME, MAX_FRAME + 1, 2 ** 32 - 1, 2 ** 31, MAX_FRAME - 1])
         k = rng.below(len(parts) + 1)
-        s = MAGIC + b"".join(p for p, _ in parts[:k]) + struct.pack(">I", n) + rng.bytes(rng.below(64))
+        # what follows the rejected prefix: random bytes, or — a session must END there, not resynchronise — well-formed
+        # frames (a Put that would land a file, the rest of the session): none of it may be read as requests
+        e_ = bytes.fromhex(blake3_hex([b""])[0])
+        tail = rng.pick([rng.bytes(rng.below(64)),
+                         frame(req_put("smuggled", None, 0, e_)) + frame(req_bye()),
+                         frame(req_put("smuggled", None, 0, e_)) + b"".join(p for p, _ in parts[k:]),
+                         b"\x00" * 16 + frame(req_delete(sorted(tree)[0], None)) if tree else frame(req_put("smuggled2", None, 0, e_))])
+        s = MAGIC + b"".join(p for p, _ in parts[:k]) + struct.pack(">I", n) + tail
         return s, f"length-prefix={n}", desc[:k]
     if kind == 5:
         k = rng.below(len(parts)); s = MAGIC + b"".join(p for p, _ in parts[:k] + [parts[k]] + parts[k:])
@@ -484,6 +491,10 @@ COMP11 = ["..", ".", "", "a", "b", "a..b", "..a", "c" * 300, "x y", "...", ".cop
 def gen_path(rng):
     n = rng.range(1, 4)
     comps = [rng.pick(COMP11) for _ in range(n)]
+    if rng.coin(1, 12):
+        # a refused path longer than any sane request bound (tens of KiB, still far below the 1 MiB frame bound): the refusal of
+        # a Put must still drain its content, and the connection must stay usable
+        return "../" + "L" * rng.pick([70_000, 66_000, 200_000])
     if rng.coin(1, 4):
         # a long component of multi-byte characters behind 0–3 ASCII bytes: whatever clips, logs or echoes the path at a fixed
         # byte offset (64, 96, 128, 255, …) then falls inside a character for most lengths
